@@ -21,8 +21,9 @@ MUTANTS = [
     ("c04_checksum_zero_falsy", "C04", "han/dlde.py", "        if expected_checksum is not None:", "        if expected_checksum:"),
     ("c04_crc_excludes_bang", "C04", "han/dlde.py", "        buf = self._readout[0 : self._end_pos + 1]", "        buf = self._readout[0 : self._end_pos + (1 if self._end_pos % 97 else 0)]"),
     ("c05_trim_only_in_hunt", "C05", "han/dlde.py", "        # Bytes consumed by previous calls are not needed any more.\n        self._buffer.trim_buffer_to_current_position()\n", ""),
-    # equivalent under the properties: with consumed bytes trimmed the guard never fires on clean streams (< 8 KiB readouts)
-    ("c05_guard_keeps_collector", "C05", "han/dlde.py", "            self._is_int_hunt_mode = True\n            self._raw_data.clear()\n            self._buffer.trim_buffer_to_flag_or_end()", "            self._is_int_hunt_mode = True\n            self._buffer.trim_buffer_to_flag_or_end()"),
+    # not a C05 fault (the guard cannot fire on a clean stream once consumed bytes are trimmed) but a C16/C14/C19 one:
+    # after an over-long readout the collector stays above the limit and every later call falls back to hunt mode
+    ("c16_guard_keeps_collector", "C16", "han/dlde.py", "            self._is_int_hunt_mode = True\n            self._raw_data.clear()\n            self._buffer.trim_buffer_to_flag_or_end()", "            self._is_int_hunt_mode = True\n            self._buffer.trim_buffer_to_flag_or_end()"),
     ("c14_strict_decode", "C14", "han/dlde.py", 'line_str = line.decode("ascii", errors="replace")', 'line_str = line.decode("ascii")'),
     ("c19_guard_ignores_collector", "C19", "han/dlde.py", "        if len(self._buffer) > 8191 or len(self._raw_data) > 8191:", "        if len(self._buffer) > 8191:"),
     ("c19_hdlc_no_trim", "C19", "han/hdlc.py", "        # All buffered data has been consumed. Do not keep it (the buffer would grow without limit during flag fill).\n        self._buffer.trim_buffer_to_current_position()\n", ""),
